@@ -60,7 +60,7 @@ Definition wordered (j k : nat) := apply_all wd (firstn k (reset_order (wreset f
 Definition has_marker (x : db N N) := match get x KStage with Some (VStage true _) => true | _ => false end.
 Definition has_state (x : db N N) := present x (KState (cur_prefix x)).
 
-(* both orders the unbuffered channel admits: every boundary resumes *)
+(* both orders the unbuffered channel lets_in: every boundary resumes *)
 Lemma order_windows_code :
   map (fun j => map (fun k => is_up (wboot fixes_all (wordered j k))) [1; 2; 3; 4; 5; 6; 7]%nat) [4; 5]%nat
     = [[true; true; true; true; true; true; true]; [true; true; true; true; true; true; true]] /\
